@@ -231,6 +231,8 @@ pub struct ConnState {
     /// byte-level events are kept out of the trace (TLS: ciphertext and its exact length
     /// depend on entropy the simulation does not own)
     pub quiet: bool,
+    /// virtual time at which the endpoint had closed both directions
+    closed_at_us: Option<u64>,
 }
 
 #[derive(Clone)]
@@ -508,6 +510,7 @@ impl os::TcpConn for EpConn {
         st.inp.reader_gone = true;
         st.inp.wake_writer();
         if st.ep_write_closed {
+            st.closed_at_us = Some(now_us());
             census_tcp_closed(st.outbound);
         }
     }
@@ -524,6 +527,7 @@ impl os::TcpConn for EpConn {
         st.out.fin = true;
         st.out.wake_reader();
         if st.ep_read_closed {
+            st.closed_at_us = Some(now_us());
             census_tcp_closed(st.outbound);
         }
     }
@@ -646,6 +650,11 @@ impl PeerConn {
         g.ep_read_closed && g.ep_write_closed
     }
 
+    /// When the endpoint had dropped both halves of its handle (its socket is released)
+    pub fn endpoint_closed_at(&self) -> Option<u64> {
+        self.0.lock().unwrap().closed_at_us
+    }
+
     pub fn endpoint_sent_fin(&self) -> bool {
         self.0.lock().unwrap().out.fin
     }
@@ -685,6 +694,24 @@ pub struct PeerIo {
     /// max bytes per write towards the endpoint (segment size); None = unlimited
     pub seg: Cut,
     pub rng: Rng,
+    pub pace: Option<Pace>,
+}
+
+/// Timing of a peer's writes on the virtual clock: a gap after every segment and one stall
+/// before the byte with a given offset leaves
+pub struct Pace {
+    pub gap_us: u64,
+    pub stall_at: Option<u64>,
+    /// u64::MAX: the peer never continues
+    pub stall_us: u64,
+    sleep: Option<std::pin::Pin<Box<tokio::time::Sleep>>>,
+    stalled: bool,
+}
+
+impl Pace {
+    pub fn new(gap_us: u64, stall_at: Option<u64>, stall_us: u64) -> Self {
+        Self { gap_us, stall_at, stall_us, sleep: None, stalled: false }
+    }
 }
 
 impl tokio::io::AsyncRead for PeerIo {
@@ -729,6 +756,30 @@ impl tokio::io::AsyncWrite for PeerIo {
         data: &[u8],
     ) -> Poll<io::Result<usize>> {
         let this = &mut *self;
+        let mut limit = usize::MAX;
+        if let Some(p) = &mut this.pace {
+            if let Some(s) = &mut p.sleep {
+                if std::future::Future::poll(s.as_mut(), cx).is_pending() {
+                    return Poll::Pending;
+                }
+                p.sleep = None;
+            }
+            let written = this.conn.0.lock().unwrap().inp.written;
+            if let Some(at) = p.stall_at {
+                if written < at {
+                    limit = (at - written) as usize;
+                } else if written == at && !p.stalled {
+                    p.stalled = true;
+                    let d = if p.stall_us == u64::MAX { std::time::Duration::from_secs(400 * 86_400) } else { std::time::Duration::from_micros(p.stall_us) };
+                    trace(Ev::Note, 910, at, p.stall_us.min(1 << 40));
+                    let mut s = Box::pin(tokio::time::sleep(d));
+                    if std::future::Future::poll(s.as_mut(), cx).is_pending() {
+                        p.sleep = Some(s);
+                        return Poll::Pending;
+                    }
+                }
+            }
+        }
         let mut g = this.conn.0.lock().unwrap();
         let st = &mut *g;
         if st.inp.reader_gone || st.inp.rst {
@@ -742,7 +793,12 @@ impl tokio::io::AsyncWrite for PeerIo {
             st.inp.wr_waker = Some(cx.waker().clone());
             return Poll::Pending;
         }
-        let n = cut(&this.seg, &mut this.rng, room.min(data.len()));
+        let n = cut(&this.seg, &mut this.rng, room.min(data.len()).min(limit));
+        if let Some(p) = &mut this.pace {
+            if p.gap_us > 0 {
+                p.sleep = Some(Box::pin(tokio::time::sleep(std::time::Duration::from_micros(p.gap_us))));
+            }
+        }
         st.inp.buf.extend(&data[..n]);
         st.inp.written += n as u64;
         st.inp.hash_written = fnv64_from(st.inp.hash_written, &data[..n]);
@@ -1286,6 +1342,7 @@ impl Inner {
             peer,
             ep_read_closed: false,
             ep_write_closed: false,
+            closed_at_us: None,
             ep_shutdown_done: false,
             outbound,
             pending_flag: false,
